@@ -741,6 +741,21 @@ func (c *collection) validateLifetimes() error {
 				continue
 			}
 
+			// Group dependencies: every member of the group is a dependency
+			if dep.Group != "" {
+				for _, member := range c.groups[GroupKey{Type: dep.Type, Group: dep.Group}] {
+					if member != nil && member.Lifetime == Scoped {
+						return &LifetimeConflictError{
+							ServiceType:        descriptor.Type,
+							ServiceLifetime:    descriptor.Lifetime,
+							DependencyType:     dep.Type,
+							DependencyLifetime: Scoped,
+						}
+					}
+				}
+				continue
+			}
+
 			depKey := instanceKey{Type: dep.Type, Key: dep.Key, Group: dep.Group}
 			depLifetime, ok := lifetimes[depKey]
 			if !ok {
